@@ -29,7 +29,7 @@ ASSUMPTIONS = ["distinct knots stay >= 1e-3 apart and |knot| <= 1e3 along every 
 
 SEP = F(1, 1000)
 BIG = F(1000)
-JUNK = {"str": "a", "none": None, "list": [1], "complex": 1j}
+JUNK = {"str": "a", "none": None, "list": [1]}
 
 BAD_LITERALS = [
     [0, 0, 1, 1, 2], [0, 0], [1, 1, 1], [0, 1, 0], [0, 0, 1], [1, 0], [0, 0, 0.5, 0.5, 0.5, 1, 1], [0], [],
@@ -115,7 +115,7 @@ def gen_case(rng, idx, tier):
         nt = "int"
     else:
         U = gen.kv(rng)
-        nt = rng.choice(["frac", "frac", "frac", "float"])
+        nt = rng.choice(["frac", "frac", "frac", "float", "npfloat"])
     lits = [rng.randrange(len(BAD_LITERALS)) for _ in range(3)] + [-1 - rng.randrange(len(GOOD_LITERALS)) for _ in range(2)]
     mutated = []
     # invalid constructor data derived from the valid vector
@@ -191,7 +191,7 @@ def resolve_atom(a, m, nt):
         j = a[1] % (len(ks) - 1)
         lo, hi = ks[j], ks[j + 1]
         val = lo + (hi - lo) * F(a[2])
-        x = lib.num(val, "frac" if m.exact else "float")
+        x = lib.num(val, "frac" if m.exact else ("npfloat" if nt == "npfloat" else "float"))
         return x, ref.fr(x)
     if kind == "out":
         d = F(a[2])
@@ -206,6 +206,8 @@ def resolve_atom(a, m, nt):
 def classify_insert(L, vals):
     if any(v is None for v in vals):
         return "reject-any", None
+    if any(v < L[0] or v > L[-1] for v in vals):
+        return "reject-valueerror", None  # "inserting outside the interval" (also for degree 0, where the list would stay clamped)
     exp = sorted(L + vals)
     wf = ref.wellformed(exp)
     if wf is None:
